@@ -58,8 +58,9 @@ Proof.
     + destruct (try_send c x) eqn:E; intros H; injection H as <- <- <-; [now apply TS|repeat split; auto].
   - unfold send_block. destruct (try_send c x) eqn:E; [|discriminate]. intros H; injection H as <- <- <-.
     now apply TS.
-  - pose proof (try_recv_spec c) as R. destruct (try_recv c) as [o c1]. intros H; injection H as <- <- <-.
-    destruct R as (C & P & T & Q). repeat split; auto. rewrite C. destruct o as [y|].
+  - destruct (pol c) eqn:PC; try (intros H; injection H as <- <- <-; repeat split; auto).
+    pose proof (try_recv_spec c) as R. destruct (try_recv c) as [o c1]. intros H; injection H as <- <- <-.
+    destruct R as (C & P & T & Q). repeat split; auto; try congruence. rewrite C. destruct o as [y|].
     + rewrite Q. cbn. lia.
     + destruct Q as [_ ->]. auto.
   - destruct (try_send c x) eqn:E; intros H; injection H as <- <- <-; [now apply TS|repeat split; auto].
@@ -77,7 +78,7 @@ Lemma drop_policy_never_waits c x ph : pol c <> Block -> ph <> SBlockWait -> sen
 Proof.
   intros HP HPh. destruct ph; cbn; try congruence.
   - destruct (pol c); try congruence; destruct (try_send c x); congruence.
-  - destruct (try_recv c). congruence.
+  - destruct (pol c); try congruence. destruct (try_recv c). congruence.
   - destruct (try_send c x); congruence.
 Qed.
 (* ... and never reaches the blocking phase *)
@@ -87,14 +88,16 @@ Proof.
   intros HP. destruct ph; cbn.
   - destruct (pol c); try congruence; destruct (try_send c x); intros H; inversion H; discriminate.
   - unfold send_block. destruct (try_send c x); discriminate.
-  - destruct (try_recv c). intros H; inversion H. discriminate.
+  - destruct (pol c); try (intros H; inversion H; discriminate).
+    destruct (try_recv c). intros H; inversion H. discriminate.
   - destruct (try_send c x); discriminate.
 Qed.
 
 (* what a phase does to the contents: appends the item, removes the head, or nothing *)
 Lemma send_phase_contents c x ph c' sr dr : send_phase c x ph = Some (c', sr, dr) ->
   (q c' = q c ++ [x] /\ sr = SDone true /\ dr = []) \/
-  (exists old, q c = old :: q c' /\ ph = SDo2 /\ sr = SMore SDo3 /\ dr = dropped_action (Some old)) \/
+  (exists old, q c = old :: q c' /\ ph = SDo2 /\ sr = SMore SDo3 /\ dr = dropped_action (Some old) /\
+               pol c = DropOldest) \/
   (q c' = q c /\ (sr = SDone true -> False) /\
    (dr = [] \/ (ph = SStart /\ pol c = DropLatest /\ sr = SDone false /\ dr = dropped_action (Some x)))).
 Proof.
@@ -109,7 +112,9 @@ Proof.
       * right; right. repeat split; auto. discriminate.
   - unfold send_block. destruct (try_send c x) eqn:E; [|discriminate]. intros H; injection H as <- <- <-.
     apply try_send_some in E. left. tauto.
-  - pose proof (try_recv_spec c) as R. destruct (try_recv c) as [o c1]. intros H; injection H as <- <- <-.
+  - destruct (pol c) eqn:PC;
+      try (intros H; injection H as <- <- <-; right; right; repeat split; auto; discriminate).
+    pose proof (try_recv_spec c) as R. destruct (try_recv c) as [o c1]. intros H; injection H as <- <- <-.
     destruct R as (_ & _ & _ & Q). destruct o as [y|].
     + right; left. exists y. auto.
     + destruct Q as [Q ->]. right; right. repeat split; auto. discriminate.
